@@ -76,6 +76,18 @@ Fixpoint invoke (fuel : nat) (dl : bool) (conn next : N) (s : list ev) (tr : lis
 
 Definition run_invoke (dl : bool) (s : list ev) : result * list op * list ev := invoke (S (length s)) dl 0 1 s [].
 
+(* the connection the client holds when the call has ended, and the index the next new connection will get: a connection
+   which connectFn failed to replace stays (a failed reconnect never leaves the client without one) *)
+Fixpoint held (fuel : nat) (conn next : N) (s : list ev) : N * N :=
+  match fuel with O => (conn, next) | S f =>
+    match s with
+    | EvWrite true _ :: EvRead None false :: EvConnect true :: s3 => held f next (next + 1) s3
+    | EvWrite false false :: EvConnect true :: s2 => held f next (next + 1) s2
+    | _ => (conn, next)
+    end
+  end.
+Definition run_held (s : list ev) : N * N := held (S (length s)) 0 1 s.
+
 (* ---------- retryConnectWithBackoff ---------- *)
 Open Scope Z_scope.
 Definition second : Z := 1000000000.
